@@ -46,6 +46,11 @@ def lean_char(ch: str) -> str:
     return "'%s'" % ch
 
 
+def lean_chars(s: str) -> str:
+    """a `List Char` literal (the kernel evaluates these directly; `String.toList` of a literal is slow under `decide`)"""
+    return '[' + ', '.join(lean_char(c) for c in s) + ']'
+
+
 def lean_list(items, per_line=8, indent='  '):
     items = list(items)
     if not items: return '[]'
@@ -263,6 +268,11 @@ MODEL_MAP = [
     ('markdown/extensions/footnotes.py', 'FootnoteExtension', 'Model/Footnotes'),
     ('markdown/extensions/__init__.py', 'Extension', 'Model/Config'),
     ('markdown/__main__.py', 'parse_options', 'Model/Cli'),
+    ('markdown/core.py', 'Markdown.registerExtensions', 'Model/Config'),
+    ('markdown/core.py', 'markdownFromFile', 'Model/Codec'),
+    ('markdown/util.py', 'get_installed_extensions', 'Model/Config'),
+    ('markdown/extensions/codehilite.py', 'CodeHiliteExtension.__init__', 'Model/Config'),
+    ('markdown/extensions/extra.py', 'ExtraExtension', 'Model/Config'),
 ]
 
 
@@ -377,6 +387,201 @@ def ext_config_defaults(src, report):
     return res
 
 
+CODEHILITE_INIT_LOOP = (
+    "for key, value in kwargs.items():\n"
+    "    if key in self.config:\n"
+    "        self.setConfig(key, value)\n"
+    "    else:\n"
+    "        if isinstance(value, str):\n"
+    "            try:\n"
+    "                value = parseBoolValue(value, preserve_none=True)\n"
+    "            except ValueError:\n"
+    "                pass\n"
+    "        self.config[key] = [value, '']")
+
+
+def extension_modules(src, report):
+    """every module of the `markdown.extensions` package (directory listing of the working tree):
+    (dotted module path, class returned by `makeExtension` or '', [(attribute name, 'module:Class')]: the module-level
+    names bound to an `Extension` subclass — classes defined there and classes imported with `from .[mod] import X`)
+    and, per Extension subclass, ('module:Class', init kind, [(key, kind, literal, description)]).
+
+    init kind: 'base' (no `__init__`, or one that ends in `super().__init__(**kwargs)`: `Extension.__init__`, i.e.
+    `setConfigs(kwargs)`), 'holder' (`self.config = kwargs`: extra), 'passthrough' (the codehilite loop, recognised
+    verbatim).  Default kinds: none | bool | str | int | truthy | falsy (the last two: any other object, with the
+    truth value of the literal; the literal is its source text)."""
+    mods, classes = [], []
+    d = os.path.join(src.repo, 'markdown', 'extensions')
+    try: files = sorted(f for f in os.listdir(d) if f.endswith('.py'))
+    except OSError as e:
+        report.append('translator-mismatch:markdown/extensions listing %r' % (e,)); files = []
+    for f in files:
+        rel = 'markdown/extensions/' + f
+        dotted = 'markdown.extensions' if f == '__init__.py' else 'markdown.extensions.' + f[:-3]
+        try: tree = src.tree(rel)
+        except SyntaxError:
+            report.append('translator-mismatch:cannot parse ' + rel); continue
+        mk = None
+        for st in tree.body:
+            if isinstance(st, ast.FunctionDef) and st.name == 'makeExtension':
+                rets = [n for n in ast.walk(st) if isinstance(n, ast.Return)]
+                if (len(rets) == 1 and isinstance(rets[0].value, ast.Call) and isinstance(rets[0].value.func, ast.Name)
+                        and ast.unparse(rets[0].value) == rets[0].value.func.id + '(**kwargs)'):
+                    mk = rets[0].value.func.id
+                else:
+                    report.append('translator-mismatch:makeExtension of ' + dotted)
+        # Extension subclasses defined at module level (closed under subclassing inside the module)
+        ext_classes = ['Extension'] if f == '__init__.py' else []
+        known = {'Extension'}
+        for st in tree.body:
+            if isinstance(st, ast.ClassDef) and any(isinstance(b, ast.Name) and b.id in known for b in st.bases):
+                known.add(st.name); ext_classes.append(st.name)
+        mods.append((dotted, mk or '', ext_classes, tree))
+        for cname in ext_classes:
+            cls = find_def(tree, cname)
+            init = find_def(tree, cname + '.__init__')
+            kind = 'base'
+            if init is not None:
+                body = [st for st in init.body if not (isinstance(st, ast.Expr) and isinstance(st.value, ast.Constant))]
+                texts = [ast.unparse(st) for st in body]
+                calls_super = [t for t in texts if t in ('super().__init__(**kwargs)', 'self.setConfigs(kwargs)')]
+                if texts == ['self.config = kwargs']: kind = 'holder'
+                elif texts and texts[-1] == CODEHILITE_INIT_LOOP and not calls_super: kind = 'passthrough'
+                elif len(calls_super) == 1 and all(
+                        t in calls_super or t.startswith('self.config = {') or
+                        (t.startswith('self.') and 'kwargs' not in t and 'config' not in t) for t in texts): kind = 'base'
+                else:
+                    report.append('translator-mismatch:%s:%s.__init__' % (dotted, cname)); kind = 'unknown'
+                if ast.unparse(init.args) != 'self, **kwargs':
+                    report.append('translator-mismatch:%s:%s.__init__ signature' % (dotted, cname)); kind = 'unknown'
+            keys = []
+            for n in (ast.walk(cls) if kind != 'holder' else []):
+                if (isinstance(n, (ast.Assign, ast.AnnAssign)) and n.value is not None
+                        and ast.unparse(n.targets[0] if isinstance(n, ast.Assign) else n.target) in ('self.config', 'config')
+                        and isinstance(n.value, ast.Dict)):
+                    for k, v in zip(n.value.keys, n.value.values):
+                        if not (isinstance(k, ast.Constant) and isinstance(k.value, str) and isinstance(v, ast.List)
+                                and len(v.elts) == 2 and isinstance(v.elts[1], ast.Constant)
+                                and isinstance(v.elts[1].value, str)):
+                            report.append('translator-mismatch:config entry of %s:%s' % (dotted, cname)); continue
+                        dflt = v.elts[0]
+                        if isinstance(dflt, ast.Constant) and dflt.value is None: ty, lit = 'none', ''
+                        elif isinstance(dflt, ast.Constant) and isinstance(dflt.value, bool): ty, lit = 'bool', str(dflt.value)
+                        elif isinstance(dflt, ast.Constant) and isinstance(dflt.value, str): ty, lit = 'str', dflt.value
+                        elif isinstance(dflt, ast.Constant) and isinstance(dflt.value, int): ty, lit = 'int', str(dflt.value)
+                        elif isinstance(dflt, (ast.Dict, ast.List, ast.Tuple, ast.Set)):
+                            ty, lit = ('truthy' if (dflt.keys if isinstance(dflt, ast.Dict) else dflt.elts) else 'falsy'), ast.unparse(dflt)
+                        elif isinstance(dflt, ast.Name): ty, lit = 'truthy', dflt.id      # a function / class object
+                        else:
+                            report.append('translator-mismatch:config default of %s:%s %s' % (dotted, cname, k.value)); continue
+                        keys.append((k.value, ty, lit, v.elts[1].value))
+            classes.append((dotted + ':' + cname, kind, keys))
+    # second pass: names imported from sibling modules of the package
+    own = {m: set(cs) for m, _, cs, _ in mods}
+    out = []
+    for dotted, mk, cs, tree in mods:
+        attrs = []
+        for st in tree.body:
+            if isinstance(st, ast.ClassDef) and st.name in cs:
+                attrs = [a for a in attrs if a[0] != st.name] + [(st.name, dotted + ':' + st.name)]
+            elif (isinstance(st, ast.ImportFrom) and dotted != 'markdown.extensions' and
+                  (st.level == 1 or (st.level == 0 and (st.module or '').split('.')[:2] == ['markdown', 'extensions']))):
+                frm = 'markdown.extensions' + ('.' + st.module if st.module else '') if st.level == 1 else st.module
+                for al in st.names:
+                    if al.name in own.get(frm, ()):
+                        nm = al.asname or al.name
+                        attrs = [a for a in attrs if a[0] != nm] + [(nm, frm + ':' + al.name)]
+        out.append((dotted, mk, attrs))
+    return out, classes
+
+
+def parse_bool_spellings(src, report):
+    """the spelling lists of `util.parseBoolValue`, read off its `elif` chain:
+    `preserve_none and value.lower() == X -> None`, `value.lower() in T -> True`, `value.lower() in F -> False`"""
+    fn = find_def(src.tree('markdown/util.py'), 'parseBoolValue')
+    none_sp, true_sp, false_sp = [], [], []
+    ok = fn is not None and ast.unparse(fn.args) == 'value: str | None, fail_on_errors: bool=True, preserve_none: bool=False'
+    try:
+        body = [st for st in fn.body if not (isinstance(st, ast.Expr) and isinstance(st.value, ast.Constant))]
+        top = body[0]
+        ok = ok and len(body) == 1 and ast.unparse(top.test) == 'not isinstance(value, str)'
+        ok = ok and ast.unparse(top.body[0]) == 'if preserve_none and value is None:\n    return value' \
+            and ast.unparse(top.body[1]) == 'return bool(value)' and len(top.body) == 2
+        b1 = top.orelse[0]; b2 = b1.orelse[0]; b3 = b2.orelse[0]; b4 = b3.orelse[0]
+        t1 = b1.test
+        ok = ok and isinstance(t1, ast.BoolOp) and isinstance(t1.op, ast.And) and ast.unparse(t1.values[0]) == 'preserve_none' \
+            and ast.unparse(t1.values[1].left) == 'value.lower()' and isinstance(t1.values[1].ops[0], ast.Eq) \
+            and ast.unparse(b1.body[0]) == 'return None'
+        none_sp = [const_eval(t1.values[1].comparators[0], {})]
+        for b, ret, dst in ((b2, 'return True', true_sp), (b3, 'return False', false_sp)):
+            ok = ok and ast.unparse(b.test.left) == 'value.lower()' and isinstance(b.test.ops[0], ast.In) \
+                and isinstance(b.test.comparators[0], ast.Tuple) and ast.unparse(b.body[0]) == ret and len(b.body) == 1
+            dst.extend(const_eval(e, {}) for e in b.test.comparators[0].elts)
+        ok = ok and ast.unparse(b4.test) == 'fail_on_errors' and isinstance(b4.body[0], ast.Raise) \
+            and ast.unparse(b4.body[0].exc.func) == 'ValueError' and not b4.orelse
+        ok = ok and all(isinstance(x, str) for x in none_sp + true_sp + false_sp)
+    except (AttributeError, IndexError, Mismatch, TypeError):
+        ok = False
+    if not ok:
+        report.append('translator-mismatch:parseBoolValue shape'); return [], [], []
+    return none_sp, true_sp, false_sp
+
+
+def cli_tables(src, report):
+    """`parse_options` of markdown/__main__.py: the `parser.add_option(...)` calls as
+    (short flag without '-', long flag without '--', dest, action, const as decimal text or ''), the declared defaults as
+    (dest, kind, literal) with kind none | str | bool | int, and the `opts = {...}` dictionary as (keyword, source expression).
+    `logging` level names are evaluated with the running CPython's `logging` (the substrate)."""
+    import logging
+    env = {'DEBUG': logging.DEBUG, 'WARNING': logging.WARNING, 'CRITICAL': logging.CRITICAL}
+    fn = find_def(src.tree('markdown/__main__.py'), 'parse_options')
+    rows, defaults, kwargs = [], [], []
+    if fn is None:
+        report.append('translator-mismatch:parse_options missing'); return rows, defaults, kwargs
+    def lit(v):
+        if v is None: return ('none', '')
+        if isinstance(v, bool): return ('bool', str(v))
+        if isinstance(v, int): return ('int', str(v))
+        if isinstance(v, str): return ('str', v)
+        raise Mismatch('default ' + repr(v))
+    for n in ast.walk(fn):
+        if isinstance(n, ast.Call) and ast.unparse(n.func) == 'parser.add_option':
+            try:
+                flags = [const_eval(a, {}) for a in n.args]
+                kw = {k.arg: k.value for k in n.keywords}
+                short = [f[1:] for f in flags if not f.startswith('--')]
+                long_ = [f[2:] for f in flags if f.startswith('--')]
+                if len(short) > 1 or len(long_) != 1 or any(len(x) != 1 for x in short): raise Mismatch('flags %r' % flags)
+                if set(kw) - {'dest', 'default', 'help', 'metavar', 'action', 'const'}: raise Mismatch('keywords %r' % sorted(kw))
+                dest = const_eval(kw['dest'], {})
+                action = const_eval(kw['action'], {}) if 'action' in kw else 'store'
+                const = str(const_eval(kw['const'], env)) if 'const' in kw else ''
+                rows.append((short[0] if short else '', long_[0], dest, action, const))
+                if 'default' in kw:
+                    d = (dest,) + lit(const_eval(kw['default'], env))
+                    if d not in defaults: defaults.append(d)
+            except (Mismatch, KeyError) as e:
+                report.append('translator-mismatch:parse_options add_option %s' % e)
+        if isinstance(n, ast.Assign) and ast.unparse(n.targets[0]) == 'opts' and isinstance(n.value, ast.Dict):
+            for k, v in zip(n.value.keys, n.value.values):
+                kwargs.append((const_eval(k, {}), ast.unparse(v)))
+    # the statements between parse_args and the dictionary, recognised verbatim
+    body = [ast.unparse(st) for st in fn.body]
+    expect = ['options, args = parser.parse_args(args, values)',
+              'if len(args) == 0:\n    input_file = None\nelse:\n    input_file = args[0]',
+              'if not options.extensions:\n    options.extensions = []',
+              'extension_configs = {}']
+    for e in expect:
+        if e not in body: report.append('translator-mismatch:parse_options statement %r' % e[:40])
+    if not any(b.startswith('if options.configfile:\n    with codecs.open(options.configfile, mode=\'r\', encoding=options.encoding) as fp:') for b in body):
+        report.append('translator-mismatch:parse_options config file block')
+    if body[-1] != 'return (opts, options.verbose)': report.append('translator-mismatch:parse_options return')
+    ctor = [ast.unparse(n) for n in ast.walk(fn) if isinstance(n, ast.Call) and ast.unparse(n.func) == 'optparse.OptionParser']
+    if ctor != ['optparse.OptionParser(usage=usage, description=desc, version=ver)']:
+        report.append('translator-mismatch:parse_options OptionParser(...)')
+    return rows, defaults, kwargs
+
+
 def entry_points(src, report):
     """[project.entry-points."markdown.extensions"] of pyproject.toml"""
     eps = []
@@ -450,6 +655,9 @@ def gen_tables(src, report):
     rex = regex_table(src)
     exts = ext_config_defaults(src, report)
     eps = entry_points(src, report)
+    ext_mods, ext_classes = extension_modules(src, report)
+    pb_none, pb_true, pb_false = parse_bool_spellings(src, report)
+    cli_rows, cli_defaults, cli_kwargs = cli_tables(src, report)
     # extra.extensions
     extra = []
     for st in src.tree('markdown/extensions/extra.py').body:
@@ -526,12 +734,40 @@ def gen_tables(src, report):
                         for e, c, ks in exts], 1))
     L.append('/-- entry points of pyproject.toml: (short name, module:Class) -/')
     L.append('def entryPoints : List (String × String) := ' + lean_list(['(%s, %s)' % (lean_str(k), lean_str(v)) for k, v in eps], 2))
+    C = lean_chars
+    L.append('/-- the tables below are `List Char` literals: the kernel evaluates them under `decide` without `String.toList` -/')
+    L.append('abbrev Chars := List Char')
+    L.append('/-- entry points of pyproject.toml: (short name, module:Class) -/')
+    L.append('def entryPointsC : List (Chars × Chars) := ' + lean_list(['(%s, %s)' % (C(k), C(v)) for k, v in eps], 1))
+    L.append('/-- modules of the `markdown.extensions` package: (dotted path, name called by `makeExtension` or "", module-level names bound to an `Extension` subclass with the class (`module:Class`) they denote) -/')
+    L.append('def extensionModules : List (Chars × Chars × List (Chars × Chars)) := ' +
+             lean_list(['(%s, %s, [%s])' % (C(m), C(k), ', '.join('(%s, %s)' % (C(a), C(c)) for a, c in cs)) for m, k, cs in ext_mods], 1))
+    L.append('/-- `Extension` subclasses: (module:Class, kind of `__init__` (base | holder | passthrough), [(config key, kind of default (none | bool | str | int | truthy | falsy), literal, description)]) -/')
+    L.append('def extensionClasses : List (Chars × Chars × List (Chars × Chars × Chars × String)) := ' +
+             lean_list(['(%s, %s, [%s])' % (C(c), C(k), ', '.join('(%s, %s, %s, %s)' % (C(e[0]), C(e[1]), C(e[2]), lean_str(e[3])) for e in ks))
+                        for c, k, ks in ext_classes], 1))
+    L.append('/-- spelling lists of `util.parseBoolValue` (compared with `value.lower()`): -> None (when `preserve_none`), -> True, -> False -/')
+    L.append('def parseBoolNone : List Chars := ' + lean_list([C(x) for x in pb_none], 4))
+    L.append('def parseBoolTrue : List Chars := ' + lean_list([C(x) for x in pb_true], 4))
+    L.append('def parseBoolFalse : List Chars := ' + lean_list([C(x) for x in pb_false], 4))
+    L.append('/-- `parser.add_option` calls of `__main__.parse_options`: (short flag, long flag, dest, action, const) -/')
+    L.append('def cliOptions : List (Chars × Chars × Chars × Chars × Chars) := ' +
+             lean_list(['(%s, %s, %s, %s, %s)' % tuple(C(x) for x in r) for r in cli_rows], 1))
+    L.append('/-- declared defaults of the options: (dest, kind, literal); a dest without an entry defaults to None -/')
+    L.append('def cliDefaults : List (Chars × Chars × Chars) := ' + lean_list(['(%s, %s, %s)' % tuple(C(x) for x in r) for r in cli_defaults], 1))
+    L.append('/-- the keyword dictionary `parse_options` returns: (keyword of `markdownFromFile`/`Markdown`, source expression) -/')
+    L.append('def cliKwargs : List (Chars × Chars) := ' + lean_list(['(%s, %s)' % (C(k), C(v)) for k, v in cli_kwargs], 1))
+    L.append('/-- `extensions` of markdown/extensions/extra.py -/')
+    L.append('def extraExtensionsC : List Chars := ' + lean_list([C(x) for x in extra], 2))
     L.append('def extraExtensions : List String := ' + lean_list([lean_str(s) for s in extra], 8))
     L.append('def outputFormats : List (String × String) := ' + lean_list(['(%s, %s)' % (lean_str(k), lean_str(v)) for k, v in ofs], 4))
     L.append('')
     L.append('end MdVerif.Generated'); L.append('')
     return '\n'.join(L), {'regexes': rex, 'registrations': regs, 'normalize_steps': steps, 'escaped': esc,
-                          'ext_escaped': ext_esc, 'extensions': exts, 'entry_points': eps, 'extra': extra}
+                          'ext_escaped': ext_esc, 'extensions': exts, 'entry_points': eps, 'extra': extra,
+                          'extension_modules': ext_mods, 'extension_classes': ext_classes,
+                          'parse_bool': [pb_none, pb_true, pb_false],
+                          'cli': [cli_rows, cli_defaults, cli_kwargs]}
 
 
 # --------------------------------------------------------------------------------------- Census
